@@ -181,6 +181,8 @@ func TestC18(t *testing.T) {
 					}
 					other := vocab.ShapesFor(f, c, true) // fresh ids: a different value of the same shapes
 					if f.Kind == vocab.KItems {
+						// not the set-but-empty list: whether it counts as set (and replaces what `to` has) or as unset is not for this check to say
+						shapes, other = shapes[1:], other[1:]
 						// a list is whatever its owner put there: the same member twice, a nil entry between members.  A merge takes the list, it does not edit it
 						for _, l := range []*[]vocab.Shaped{&shapes, &other} {
 							a, b := c.ID("dup"), c.ID("dup")
